@@ -6,7 +6,7 @@ deterministic histories under 16 storage configurations with -keep, and every ke
 (only directories whose WRITES the pinned release acknowledged correctly are kept: the abstract state is rebuilt from
 the acknowledged writes; what the pinned release reported when reading is not replayed).  Run once; the result is committed under /verif/golden.  A directory in which the pinned release itself left an
 index that disagrees with its files (its known defects: a rejected write that stays indexed, ...) is not a valid
-database and must be removed from the corpus by hand after the first adoption run (g13 was).  Nothing here runs during a check.
+database and must be removed from the corpus by hand after the first adoption run (g13 and g15 were).  Nothing here runs during a check.
 """
 import json, os, random, shutil, subprocess, sys
 sys.path.insert(0, os.path.dirname(os.path.dirname(os.path.abspath(__file__))))
@@ -51,7 +51,8 @@ try:
             continue
         json.dump(t, open(os.path.join(d, "test.json"), "w"))
         kept += 1
-    shutil.rmtree(os.path.join(out, "g13"), ignore_errors=True)   # inconsistent as written by the pinned release (see above)
+    for bad in ("g13", "g15"):
+        shutil.rmtree(os.path.join(out, bad), ignore_errors=True)   # inconsistent as written by the pinned release (see above)
     print("golden corpus: %d directories kept of %d" % (kept, len(tests)))
     shutil.rmtree(w, ignore_errors=True)
 finally:
